@@ -74,6 +74,8 @@ func evictScripts() []Seq {
 		add(pol, 400, e("rpush", "l1", "a", "b"), e("sadd", "s1", "m1", "m2"), e("hset", "h1", "f", "v"), e("set", "k1", "5"), e("incr", "k1"), e("lrange", "l1", "0", "-1"),
 			e("smembers", "s1"), e("hget", "h1", "f"), e("set", "k2", "aa"), e("sadd", "s1", "m3"), e("rpush", "l1", "c"), e("set", "k3", "bb"), e("set", "k4", "cc"))
 	}
+	// noeviction: a push on an absent key is two writes; the first one reaches the limit
+	add("noeviction", 160, e("set", "k1", "aa"), e("set", "k2", "bb"), e("rpush", "l1", "a"), e("lrange", "l1", "0", "-1"), e("lpush", "l2", "a"))
 	// noeviction: exact hits of the limit with equal-sized entries (60 and 50 bytes)
 	for _, n := range []int{1, 2, 3, 4} {
 		var ops []Op
